@@ -4,7 +4,7 @@ PROP = {
     "title": "Loading any configuration never crashes",
     "engine": "E1",
     "level": "exploration",
-    "technique": "runtime monitor: load_configs + Emmyrc::pre_process_emmyrc under catch_unwind on generated configuration file sets; Lua configs in a child process",
+    "technique": "runtime monitor: load_configs + Emmyrc::pre_process_emmyrc under catch_unwind on generated configuration file sets; Lua configs announced for abort attribution; hang probes in a child process under a CPU budget",
     "design_ref": "§4 C31",
     "rule": "cases = 1-3 configuration files over the key space harvested from resources/schema.json (flat / nested / mixed spellings, keys that are both a value "
             "and a prefix in both orders and depths, wrong value types, hostile path strings for every path-typed setting: ~ ~x ~é ~/ ./ $ ${workspaceFolder} "
@@ -12,16 +12,17 @@ PROP = {
             "tables, syntax errors, runtime errors, non-table results, cyclic tables), missing files and directories, optional client partial configs, "
             "7 kinds of workspace root; distinct = FNV of the case (held or refuted); non-trivial = >= 3 settings, or a collision, a path string, an invalid "
             "file or a Lua file",
-    "min_nontrivial": {"quick": 30000, "thorough": 1000000},
-    "max_secs": {"quick": 75, "thorough": 1000},
-    "require_clauses": ["a:no-crash", "a:lua-config", "b:invalid-file-skipped", "family:json", "family:malformed", "family:lua", "family:odd-lua", "family:missing"],
+    "min_nontrivial": {"quick": 3000, "thorough": 100000},
+    "max_secs": {"quick": 50, "thorough": 900},
+    "require_clauses": ["a:no-crash", "b:invalid-file-skipped", "family:json", "family:malformed", "family:lua", "family:odd-lua", "family:missing", "family:lua-hang-probe"],
     "assumptions": COMMON_ASSUME + [
         "environment of the expansion: HOME is a private directory, VERIF_TILDE='~', VERIF_EMPTY='', VERIF_UNSET_VARIABLE unset; no luarocks binary",
         "clause b (skip or defaults) is only applied to files that are certainly not JSON / unreadable, and only when the other files contain no colliding keys",
-        "a child that burns > 20 s CPU (then > 80 s on a second run) counts as a hang; the Lua sandbox's own 1 s timeout is wall clock and not judged",
+        "hang probes (shard 0: quick 1, thorough 4 Lua sources that do not terminate unless the sandbox limits work) run in a child: > 3 s CPU, then > 12 s CPU in a second child = hang (a normal Lua config costs ~1 ms CPU; the loader asks for a 1 s timeout)",
+        "pre_process_emmyrc is skipped when all five path lists of the loaded configuration are empty (nothing input-dependent left to observe)",
     ],
     "level_text": "Generated hostile configuration sets are loaded by the real loader and path expander; a panic, abort or confirmed hang is a violation. "
-                  "~64k (quick) cases. Exploration, not proof.",
+                  "16 x 800 (quick) / 16 x 25 000 (thorough) cases. Exploration, not proof.",
     "abort_is_violation": True,
     "level_note": "Only load_configs + pre_process_emmyrc are driven (what emmylua_ls / emmylua_check / emmylua_doc_cli call); the server's own file discovery "
                   "(load_emmy_config) is not.",
